@@ -1,5 +1,5 @@
 (* Property C19 -- statements only; proofs in Proofs/C19.v *)
-From Coq Require Import List String.
+From Coq Require Import List String Bool.
 From FV Require Import Base.Re Base.Grammar Model.ForecastM Model.SliceM Proofs.C19 Proofs.C19Slice.
 Import ListNotations.
 Open Scope string_scope.
@@ -55,4 +55,35 @@ Proof. vm_compute. reflexivity. Qed.
 Example C19_slice_sound_nonvacuous :
   option_map hp (inline 9 [("<start>", Cat [Ref "A:B:<x>"; Alt [Ref "C:A:<y>"; Ref "C:B:<z>"]; Ref "<t>"]); ("<t>", Rep (Ref "B:A:<u>") 0 (Some 1))] (Ref "<start>"))
   = Some true.
+Proof. vm_compute. reflexivity. Qed.
+
+(* the second mode of slice_parties (ignore_receivers=False: what truncate_invisible_packets does before a protocol run).  The three slicing
+   theorems hold for EVERY visibility test, in particular for both modes (vis_mode); the two characterisations say what the tests mean for a
+   message name "s:r:<n>": in the first mode a message stays iff its sender is kept, in the second iff it has no recipient or its sender or
+   its recipient is kept *)
+Theorem C19_sliced_modes : forall k rules fuel r,
+  (forall m, islice fuel (vis_mode k) rules r = Some (Some m) -> Forall (fun a => vis_mode k a = true) (atoms msg m)) /\
+  (forall full, islice fuel (vis_mode k) rules r = Some None -> inline fuel rules r = Some full ->
+     Forall (fun a => vis_mode k a = false) (atoms msg full)) /\
+  (forall m full, islice fuel (vis_mode k) rules r = Some (Some m) -> inline fuel rules r = Some full -> hp full = true ->
+     forall w, lang msg msg macc m w -> exists w', lang msg msg macc full w' /\ filter (vis_mode k) w' = w).
+Proof.
+  intros k rules fuel r. split; [|split].
+  - intros m. exact (islice_visible (vis_mode k) rules fuel r m).
+  - intros full. exact (islice_removed_invisible (vis_mode k) rules fuel r full).
+  - intros m full. exact (islice_sound (vis_mode k) rules fuel r m full).
+Qed.
+Print Assumptions C19_sliced_modes.
+
+Theorem C19_visibility_meaning : forall keep s r n, nocolon s = true -> nocolon r = true ->
+  vis_mode (true, keep) (mname s r n) = existsb (String.eqb s) keep /\
+  vis_mode (false, keep) (mname s r n) = (String.eqb r "None" || existsb (String.eqb s) keep || existsb (String.eqb r) keep)%bool.
+Proof. intros keep s r n Hs Hr. split; [exact (visible_mname keep s r n Hs) | exact (visible_io_mname keep s r n Hs Hr)]. Qed.
+Print Assumptions C19_visibility_meaning.
+
+(* non-vacuity: <start> ::= <A:B:x> (<C:D:y> | <C:B:z> | <C:None:v>) <D:C:w>?  sliced to {A, B} without ignoring receivers:
+   C:D:y and D:C:w go, C:B:z stays (B receives it), C:None:v stays (no recipient) *)
+Example C19_slice_io_nonvacuous :
+  islice 9 (vis_mode (false, ["A"; "B"])) [("<start>", Cat [Ref "A:B:<x>"; Alt [Ref "C:D:<y>"; Ref "C:B:<z>"; Ref "C:None:<v>"]; Rep (Ref "D:C:<w>") 0 (Some 1)])] (Ref "<start>")
+  = Some (Some (RCat _ (RAtom _ "A:B:<x>") (RCat _ (RAlt _ (RAtom _ "C:B:<z>") (RAlt _ (RAtom _ "C:None:<v>") (REmp _))) (REps _)))).
 Proof. vm_compute. reflexivity. Qed.
